@@ -11,7 +11,7 @@ Replies: `obj i` | `objs i…` | `nats n…` | `unit` | `err <class>` | `info T 
 namespace Driver.CoreCmd
 open Driver PtCore
 
-def base : Base := PtGen.elementBase.map fun (z, name, sym, _, ions) => ⟨z, name, sym, ions⟩
+def base : Base := baseOfRaw PtGen.elementBase
 
 structure St where
   s : State := {}
